@@ -1654,6 +1654,89 @@ def r114(ctx, repo, setitem, mc, ml):
                key=f"{EXP}::Export.hdf5::export user section ({how})")
 
 
+def r114_rectify(ctx, repo):
+    """carried-over metadata vs. the keys RTDCWriter.rectify_metadata derives
+    on close: its docstring announces which keys are always rewritten
+    ('updated') and which are only filled in ('added if not present');
+    decided by interpreting the method on a model file whose attributes
+    already hold a supplied value for every announced key"""
+    import re
+    from .C13 import H5Dataset, H5Group, N, H, W, SPE
+    from ..lib_C11 import ClassModel
+    rm = repo.func(WR, "RTDCWriter.rectify_metadata")
+    doc = ast.get_docstring(rm) or ""
+    mode = None
+    announced = {}
+    for line in doc.splitlines():
+        low = line.lower()
+        if "if not present" in low:
+            mode = "fill"
+        elif "updated" in low:
+            mode = "update"
+        mm = re.match(r"\s*-\s*([a-z_]+):\s*([a-z ]+?)\s*(\(.*\))?\s*$",
+                      line)
+        if mm and mode:
+            announced[f"{mm.group(1)}:{mm.group(2)}"] = mode
+    if len(announced) < 4 or "fill" not in announced.values() \
+            or "update" not in announced.values():
+        raise AnalysisError("rectify_metadata: docstring key lists "
+                            f"('updated' / 'if not present') not "
+                            f"recognised: {announced}")
+    interp = Interp()
+    g = {"h5py": Namespace("h5py", Dataset=H5Dataset, Group=H5Group)}
+    writer = ClassModel(repo.cls(WR, "RTDCWriter"), g, interp,
+                        strict_instances=True)
+
+    def run(preset):
+        file = object()
+        h5 = H5Group(file)
+        ev = H5Group(file, "/events")
+        h5["events"] = ev
+        ev["deform"] = H5Dataset((N,), file)
+        ev["fl1_max"] = H5Dataset((N,), file)
+        ev["fl2_max"] = H5Dataset((N,), file)
+        ev["image"] = H5Dataset((N, H, W), file)
+        ev["trace"] = H5Group(file, "/events/trace")
+        ev["trace"]["fl1_raw"] = H5Dataset((N, SPE), file)
+        h5.attrs.update(preset)
+        interp.steps = 0
+        try:
+            Func(rm, g, interp)(writer.instance(h5file=h5,
+                                                path="model.rtdc"))
+        except ModelRaise as e:
+            raise AnalysisError(f"rectify_metadata raises {e} on the model "
+                                "file")
+        return dict(h5.attrs)
+    derived = run({})
+    supplied = 99
+    got = run({k: supplied for k in announced})
+    for key, mode in sorted(announced.items()):
+        if key not in derived:
+            raise AnalysisError(f"rectify_metadata: announced key {key} is "
+                                "not derived for the model file")
+        if derived[key] == supplied:
+            raise AnalysisError("model values collide with the sentinel")
+        if mode == "fill":
+            ok = got.get(key) == supplied
+            msg = (f"a supplied '{key}' survives closing the file (only "
+                   "filled in when missing)" if ok else
+                   f"a supplied / carried-over '{key}' = {supplied} is "
+                   f"replaced by the derived {got.get(key)!r} on close "
+                   "although the docstring says 'added if not present' "
+                   "(the presence test does not look at the attribute it "
+                   "writes)")
+            label = f"keeps supplied {key}"
+        else:
+            ok = got.get(key) == derived[key]
+            msg = (f"'{key}' is always re-derived from the data" if ok else
+                   f"a stale '{key}' = {supplied} survives closing the "
+                   f"file (derived value: {derived[key]!r}) although the "
+                   "docstring says it is updated")
+            label = f"rewrites {key}"
+        ctx.ob("R11.4", ok, msg, node=rm,
+               key=f"{WR}::RTDCWriter.rectify_metadata::{label}")
+
+
 def _ancestors(n):
     p = getattr(n, "parent", None)
     while p is not None:
@@ -1717,6 +1800,7 @@ def run(ctx):
     storable = _guard("R11.2", r112, ctx, repo, mp, mc, ml, setitem)
     _guard("R11.3", r113, ctx, repo, mp, mc, setitem, verify, bound_k)
     _guard("R11.4", r114, ctx, repo, setitem, mc, ml)
+    _guard("R11.4", r114_rectify, ctx, repo)
     _guard("R11.5", r115, ctx, repo, mp, mc, ml, storable)
     ctx.model = (mp, mc, ml)
     ctx.evals = ctx.stats.pop("_evals")
@@ -2295,4 +2379,26 @@ MUTANTS = list(MUTANTS) + [
        "    var, val = line.split(\"=\", 1)\n"
        "    return var.strip(), val.strip(\"' \").strip('\" ').strip()\n\n\n"
        "def keyval_str2typ(var, val):")], "R11.4"),
+]
+
+# round-3 seeded change
+MUTANTS = list(MUTANTS) + [
+    ("channel-count guard tests the file instead of its attributes", WR,
+     ('            if "fluorescence:channel count" not in self.h5file.attrs:',
+      '            if "fluorescence:channel count" not in self.h5file:'),
+     "R11.4"),
+    ("channel-count guard tests another key", WR,
+     ('            if "fluorescence:channel count" not in self.h5file.attrs:',
+      '            if "fluorescence:channels installed" not in '
+      'self.h5file.attrs:'), "R11.4"),
+    ("event count only filled in when missing", WR,
+     ('            self.h5file.attrs["experiment:event count"] = len(feat0)',
+      '            self.h5file.attrs.setdefault("experiment:event count",\n'
+      '                                         len(feat0))'), "R11.4"),
+]
+TWINS = list(TWINS) + [
+    ("channel-count guard via attrs.get", WR,
+     ('            if "fluorescence:channel count" not in self.h5file.attrs:',
+      '            if self.h5file.attrs.get("fluorescence:channel count") '
+      'is None:')),
 ]
